@@ -13,6 +13,8 @@
 (*                                      function, evaluated again per call  *)
 (*   [op |-> "alias",  var, src]        var::src                            *)
 (*   [op |-> "add",    var, k, v, side] var,[k v]  /  [k v],var             *)
+(*   [op |-> "addbad", var, k]          var,,k      a tuple of one element:  *)
+(*                                      may fail, must change nothing       *)
 (*   [op |-> "find",   var, k, obs]     var?k       obs = value | "undef"   *)
 (*   [op |-> "remove", var, k]          k_var                               *)
 (*   [op |-> "size",   var, obs]        #var                                *)
